@@ -1384,6 +1384,30 @@ impl<'a> BodyGen<'a> {
         let k = self.r.gen_range(0..100);
         match k {
             0..=5 => self.out.push(I::Nop),
+            6..=15 if self.feat().multi_value && !self.o.exec_subset && self.r.gen_bool(0.15) => {
+                // a construct that takes parameters and returns nothing: (p) -> ()
+                let p = *vts.choose(self.r).unwrap();
+                self.expr(p, depth + 1);
+                let bt = self.block_type(&[p], &[]);
+                match self.r.gen_range(0..3) {
+                    0 => {
+                        self.out.push(I::Block(bt));
+                        self.out.push(I::Drop);
+                    }
+                    1 => {
+                        self.out.push(I::Loop(bt));
+                        self.out.push(I::Drop);
+                    }
+                    _ => {
+                        self.expr(T::I32, depth + 1);
+                        self.out.push(I::If(bt));
+                        self.out.push(I::Drop);
+                        self.out.push(I::Else);
+                        self.out.push(I::Drop);
+                    }
+                }
+                self.out.push(I::End);
+            }
             6..=15 => {
                 let t = *vts.choose(self.r).unwrap();
                 self.expr(t, depth + 1);
